@@ -18,8 +18,11 @@ LEVEL = 'translation_validation'
 LEVEL_TEXT = ('The reader is decided by an executable Lean model that mirrors tokenizer, atom parser, parser, front end and '
               'numbering branch by branch, validated against the real functions on every run (exhaustive over all short '
               'strings of the SMILES alphabet, generated and corpus strings, corruptions), plus universally quantified '
-              'theorems about that model: no input can reach an unrelated exception, the parser result is well formed, and '
-              'on the core grammar the reader builds exactly the graph an independent denotational semantics assigns. '
+              'theorems about that model: no input can reach an unrelated exception (full), the parser result is well formed, '
+              'for every syntax tree of the grammar (branches, dots, bond symbols, direction marks, ring closures) the parser '
+              'builds exactly the graph an independent denotational semantics assigns, and without ring closures acceptance is '
+              'equivalent to being in the grammar; tables regenerated from the source are proved equal to the charge / bond '
+              'semantics of the language. An independent reference reader and RDKit judge the real reader on every run. '
               'Translation validation is the right level because the hand-written model is tied to the Python text by '
               'differential execution, not by a proof about the Python text.')
 LEVEL_NOTE = ('Trusted: Lean kernel; gen_c03 translator (CPython sre parser for atom_re, AST of _tokenize); the harness '
